@@ -108,8 +108,8 @@ Section Proofs.
   Hypothesis H_fzero : forall x, fzero x = true -> feq x f0.
   Hypothesis H_ffmt : forall k x, frep k x -> exists y, fparse k (ffmt k x) = Some y /\ feq x y.
   Hypothesis H_gfmt : forall k x, frep k x -> exists y, fparse k (gfmt k x) = Some y /\ feq x y.
-  Hypothesis H_small : forall k x z, fbig x = false -> parse_int (ffmt k x) = Some z -> int_const_ok z = true.
-  Hypothesis H_big : forall k x, fbig x = true -> parse_int (gfmt k x) = None.
+  Hypothesis H_small : forall k x z, frep k x -> fbig x = false -> parse_int (ffmt k x) = Some z -> int_const_ok z = true.
+  Hypothesis H_big : forall k x, frep k x -> fbig x = true -> parse_int (gfmt k x) = None.
   Hypothesis quote_inj : forall a b, quote a = quote b -> a = b.
 
   (* the round trip, in the form that goes through the induction: below SubValue a zero struct may
@@ -150,10 +150,10 @@ Section Proofs.
     intros x t sub Hd Ht. inversion Ht as [| |? k ? Hu Hr| | | | | | |]; subst.
     cbn [value_lit]. rewrite Hu. cbn [andb]. eexists; split; [reflexivity|]. right.
     cbn [denote]. rewrite Hu. destruct (fbig x) eqn:Eb.
-    - rewrite (H_big k x Eb). destruct (H_gfmt k x Hr) as (y & Hy & He). rewrite Hy. cbn.
+    - rewrite (H_big k x Hr Eb). destruct (H_gfmt k x Hr) as (y & Hy & He). rewrite Hy. cbn.
       exists (VFloat y). split; [reflexivity | now constructor].
     - destruct (H_ffmt k x Hr) as (y & Hy & He).
-      destruct (parse_int (ffmt k x)) as [z|] eqn:Ez; [rewrite (H_small k x z Eb Ez)|]; rewrite Hy; cbn;
+      destruct (parse_int (ffmt k x)) as [z|] eqn:Ez; [rewrite (H_small k x z Hr Eb Ez)|]; rewrite Hy; cbn;
         exists (VFloat y); (split; [reflexivity | now constructor]).
   Qed.
 
@@ -631,3 +631,127 @@ Section Proofs.
   Qed.
 
 End Proofs.
+
+(* ---- the code before the repairs: witnesses ---- *)
+
+Definition T_In : gotype := TNamed (bs "m") (bs "In") (TStruct [(bs "A", TInt KInt)]).
+Definition T_Color : gotype := TNamed (bs "m") (bs "Color") (TInt KInt).
+
+Lemma dom_In : dom T_In.
+Proof.
+  apply DNamed; [discriminate | exact I|]. apply DStruct.
+  - constructor; [split; [reflexivity | constructor] | constructor].
+  - constructor; [intros [] | constructor].
+Qed.
+
+Section Witnesses.
+  Context {F : Type}.
+  Variable fzero : F -> bool.
+  Variables ffmt gfmt : fkind -> F -> bytes.
+  Variable fbig : F -> bool.
+  Variable fparse : fkind -> bytes -> option F.
+  Variable f0 : F.
+  Variable quote : bytes -> bytes.
+  Variable local : bytes -> bytes.
+  Variable frep : fkind -> F -> Prop.
+
+  Notation VL := (@value_lit F fzero ffmt gfmt fbig quote local).
+  Notation DN := (@denote F fparse f0).
+  Notation TYPED := (@typed F frep).
+
+  Definition fails (fx : bool) (t : gotype) (v : goval F) : Prop :=
+    dom t /\ TYPED t v /\
+    (VL fx false t v = Panic \/ exists l, VL fx false t v = Ok l /\ DN t l = None).
+
+  (* *string renders &("x") *)
+  Lemma old_ptr_string : fails false (TPtr TString) (VPtr (VStr (bs "x"))).
+  Proof.
+    split; [apply DPtr; [exact I | constructor]|].
+    split; [eapply TyPtr; [reflexivity | now apply TyStr]|].
+    right. eexists; split; reflexivity.
+  Qed.
+
+  (* *Color renders func(v int) *int { return &v }(3) *)
+  Lemma old_ptr_named : fails false (TPtr T_Color) (VPtr (VInt 3)).
+  Proof.
+    split; [apply DPtr; [exact I | apply DNamed; [discriminate | exact I | constructor]]|].
+    split; [eapply TyPtr; [reflexivity | eapply TyInt; reflexivity]|].
+    right. eexists; split; reflexivity.
+  Qed.
+
+  (* S{Z: &In{}} renders Z:&(), *)
+  Lemma old_ptr_zero_struct :
+    fails false (TStruct [(bs "Z", TPtr T_In)]) (VStruct [VPtr (VStruct [VInt 0])]).
+  Proof.
+    split.
+    { apply DStruct.
+      - constructor; [split; [reflexivity | apply DPtr; [exact I | apply dom_In]] | constructor].
+      - constructor; [intros [] | constructor]. }
+    split.
+    { eapply TyStruct; [reflexivity|]. constructor; [|constructor].
+      eapply TyPtr; [reflexivity|]. eapply TyStruct; [reflexivity|].
+      constructor; [|constructor]. eapply TyInt; reflexivity. }
+    right. eexists; split; reflexivity.
+  Qed.
+
+  (* S{M: {"a": In{}}} renders "a":, *)
+  Lemma old_map_zero_struct :
+    fails false (TStruct [(bs "M", TMap TString T_In)])
+          (VStruct [VMap false [(VStr (bs "a"), VStruct [VInt 0])]]).
+  Proof.
+    split.
+    { apply DStruct.
+      - constructor; [split; [reflexivity | apply DMap; [exact I | constructor | apply dom_In]] | constructor].
+      - constructor; [intros [] | constructor]. }
+    split.
+    { eapply TyStruct; [reflexivity|]. constructor; [|constructor].
+      eapply TyMap; [reflexivity| | |discriminate].
+      - constructor; [|constructor]. split; [now apply TyStr|].
+        eapply TyStruct; [reflexivity|]. constructor; [|constructor]. eapply TyInt; reflexivity.
+      - constructor; [intros [] | constructor]. }
+    right. eexists. split.
+    { cbn. rewrite bytes_eqb_refl. cbn. reflexivity. }
+    reflexivity.
+  Qed.
+
+  (* uintptr panics *)
+  Lemma old_uintptr : fails false (TInt KUintptr) (VInt 3).
+  Proof.
+    split; [constructor|]. split; [eapply TyInt; reflexivity|]. left. reflexivity.
+  Qed.
+
+  (* math.MaxFloat64 renders as a 309-digit integer constant, which gc rejects ("constant overflow") *)
+  Definition max_float64_f : bytes :=
+    bs "179769313486231570000000000000000000000000000000000000000000000000000000000000000000000000000000000000000000000000000000000000000000000000000000000000000000000000000000000000000000000000000000000000000000000000000000000000000000000000000000000000000000000000000000000000000000000000000000000000000000000000000".
+
+  Lemma old_big_float : forall x, frep KF64 x -> ffmt KF64 x = max_float64_f ->
+    fails false (TFloat KF64) (VFloat x).
+  Proof.
+    intros x Hr Hf. split; [constructor|]. split; [eapply TyFloat; [reflexivity | exact Hr]|].
+    right. eexists; split; [reflexivity|]. cbn [denote under]. cbn [andb]. rewrite Hf.
+    vm_compute. reflexivity.
+  Qed.
+End Witnesses.
+
+(* ---- the hypotheses on the external components are satisfiable: "floats" that are the integers
+   below 2^53, printed in decimal ---- *)
+Definition z_frep (_ : fkind) (z : Z) : Prop := (Z.abs z < 2 ^ 53)%Z.
+
+Lemma z_instance :
+  (forall x : Z, Z.eqb x 0 = true -> x = 0%Z) /\
+  (forall k x, z_frep k x -> exists y, parse_int (dec x) = Some y /\ x = y) /\
+  (forall k x z, z_frep k x -> false = false -> parse_int (dec x) = Some z -> int_const_ok z = true) /\
+  (forall k x, z_frep k x -> false = true -> parse_int (dec x) = None) /\
+  (forall a b : bytes, a = b -> a = b) /\
+  z_frep KF64 42%Z.
+Proof.
+  repeat match goal with |- _ /\ _ => split end.
+  - intros x H. now apply Z.eqb_eq.
+  - intros k x _. exists x. split; [apply parse_int_dec | reflexivity].
+  - intros k x z Hr _ H. rewrite parse_int_dec in H. injection H as <-.
+    unfold int_const_ok, z_frep in *. apply Z.ltb_lt.
+    assert ((2 ^ 53 < 2 ^ 512)%Z) by (apply Z.pow_lt_mono_r; lia). lia.
+  - intros k x _ H. discriminate.
+  - auto.
+  - unfold z_frep. cbn. lia.
+Qed.
